@@ -82,6 +82,8 @@ FunctorManager::Entry& FunctorManager::createOrReplace(const std::string& name, 
       /* back up current declaration */
       _backed.swap(e.functor);
       _backed_id = (unsigned)(&e - &_declarations[0]);
+      /* the cached runtime contexts were made for the replaced definition */
+      e.clearCache();
       return e;
     }
   }
